@@ -444,8 +444,9 @@ class Contract:
     """Sidecar contract of one function (see /verif/contracts/*.py)."""
 
     def __init__(self, module, name, params, requires=(), ensures=(), loops=None, abstract=None, ghost_after=None,
-                 ghost_before=None, notes='', ensures_raises=None, setup=None, assume_after=None, stop_at=None, key=None, nonlinear=None, fragment=None, inputs=None, dot_support=False, use_fragments=None, inf_division=False):
+                 ghost_before=None, notes='', ensures_raises=None, setup=None, assume_after=None, stop_at=None, key=None, nonlinear=None, fragment=None, inputs=None, dot_support=False, use_fragments=None, inf_division=False, isclose_exact=False):
         self.module, self.name, self.params = module, name, params
+        self.isclose_exact = isclose_exact    # np.isclose(a, b, rtol=.., atol=0) modelled as a == b (exact real arithmetic: the tolerance only absorbs rounding)
         self.inf_division = inf_division      # a/b with non-constant b: IEEE value 0 when b is the constant INF (np.inf)
         self.requires, self.ensures = list(requires), list(ensures)
         self.loops = dict(loops or {})
